@@ -33,11 +33,14 @@ class Gen:
         ints = [i for i, k in enumerate(self.kinds) if k == "int"]
         if len(ints) < 2:
             return
-        n = rng.choice([2, 2, 3]) if len(ints) >= 3 else 2
+        c = rng.choice("AKV")
+        if c == "V":   # the iterator-range overload of whenAll takes any number of inputs
+            n = rng.randint(2, min(4, len(ints)))
+        else:
+            n = rng.choice([2, 2, 3]) if len(ints) >= 3 else 2
         ins = rng.sample(ints, n)
-        c = rng.choice("AK")
         self.ops.append(c + ",".join(map(str, ins)))
-        self.kinds.append("all" if c == "A" else "any")
+        self.kinds.append("all" if c in "AV" else "any")
         self.nconts += n
 
     def settle(self):
@@ -63,6 +66,15 @@ class Gen:
         return "S " + " ".join(self.ops)
 
 
+# hand-computed: an all-of promise delivers its inputs' values in ARGUMENT order, whatever the settle order
+ORDER_CASES = {
+    "S N N N V0,1,2 T3:o:s R2:3 R0:1 R1:2": "S 3R1.2.3",
+    "S N N N N V3,1,0,2 T4:o:s R0:5 R1:6 R2:7 R3:8": "S 4R8.6.5.7",
+    "S N N A1,0 T2:o:s R0:4 R1:9": "S 2R9.4",
+    "S N N N A2,0,1 T3:o:s R1:1 R2:2 R0:3": "S 3R2.3.1",
+}
+
+
 class C11(Spec):
     pid = "C11"
     area = "promise"
@@ -71,7 +83,7 @@ class C11(Spec):
     shard = 500
     rule = ("programs over the promise API interpreted on the real async.h: new promise, then() with value-returning or "
             "void callbacks and rethrowing or swallowing rejection handlers on base, derived, all-of and any-of promises, "
-            "resolve / reject (incl. settling twice), whenAll / whenAny over 2-3 inputs, in every order of attaching and "
+            "resolve / reject (incl. settling twice), whenAll / whenAny over 2-3 inputs (variadic) and whenAll over an iterator range of 2-4 inputs, in every order of attaching and "
             "settling the generator reaches (seeded programs of 3-14 operations plus systematic attach-before/after-settle "
             "families). The callback log (continuation, outcome, value/exception) is compared with the model's; the oracle "
             "checks at-most-once per continuation and that no settle of a still-pending promise raises. non-trivial = log "
@@ -82,7 +94,7 @@ class C11(Spec):
                    "make_exception_ptr on it): the harness unwraps it; the property does not name the exception for all-of"]
 
     def gen(self, rng, tier):
-        cases = []
+        cases = list(ORDER_CASES)
         n = 4000 if tier == "quick" else 60000
         for _ in range(n):
             cases.append(Gen(rng).build(rng.randint(3, 14)))
@@ -116,6 +128,8 @@ class C11(Spec):
     def oracle(self, case, impl):
         if impl.startswith(("CRASH", "HANG")):
             return "promise interpreter %s on %s" % (impl, case)
+        if case in ORDER_CASES and impl != ORDER_CASES[case]:
+            return "whenAll delivered %s, expected %s (values in argument order) for %s" % (impl, ORDER_CASES[case], case)
         evs = impl.split()[1:]
         seen = set()
         for e in evs:
